@@ -60,7 +60,8 @@ Proof.
   destruct (Nat.eqb_spec (length hfs) 6) as [E|E]; cbn [negb]; [|exact K].
   destruct (negb (forallb _ hfs)); [exact K|].
   destruct chk; cbn [negb].
-  - destruct (check_halfface_ordering s hfs); [apply kshape_add_cell; assumption|].
+  - destruct (negb (length (hfs_vertex_set s hfs) =? 8)); [exact K|].
+    destruct (check_halfface_ordering s hfs); [apply kshape_add_cell; assumption|].
     destruct (reorder_bottom s hfs) as [b|]; [|exact K].
     destruct (all_some (upd 1 (Some b) (reorder_top s hfs))) as [l|] eqn:A; [|exact K].
     destruct (check_halfface_ordering s l); [|exact K].
@@ -72,6 +73,7 @@ Lemma shape_hex_add_cell_v s vs chk : hex_shape s -> hex_shape (fst (hex_add_cel
 Proof.
   intros K. unfold hex_add_cell_v. destruct (negb (full_bu s)); [exact K|].
   destruct (Nat.eqb_spec (length vs) 8) as [E|E]; cbn [negb]; [|exact K].
+  destruct (chk && negb (length (set_of_list vs) =? 8)); [exact K|].
   set (step := fun (acc : mesh * list nat) (qf : list nat * option nat) =>
                  let '(s', l) := acc in
                  match snd qf with
@@ -298,14 +300,20 @@ Proof.
   rewrite (halfface_faces s t x E). reflexivity.
 Qed.
 
-Lemma check_ordering_faces s t l : faces t = faces s -> check_halfface_ordering t l = check_halfface_ordering s l.
+Lemma check_ordering_faces s t l : faces t = faces s -> edges t = edges s -> check_halfface_ordering t l = check_halfface_ordering s l.
 Proof.
-  intros E. unfold check_halfface_ordering, ord_pass. rewrite !(halfface_faces s t _ E).
+  intros E EE. unfold check_halfface_ordering, ord_pass. rewrite !(hf_vertices_same s t _ E EE). rewrite !(halfface_faces s t _ E).
   assert (G : forall self first order hes st,
               fold_left (ord_step t l self first order) hes st = fold_left (ord_step s l self first order) hes st).
   { intros self first order. induction hes as [|he hes IH]; intros st; [reflexivity|]. cbn [fold_left]. rewrite IH. f_equal.
     unfold ord_step. destruct st as [[o|]|]; try reflexivity; rewrite (get_adjacent_faces s t _ _ _ E); reflexivity. }
   rewrite !G. reflexivity.
+Qed.
+
+Lemma add_cell_edges s l chk : edges (fst (add_cell s l chk)) = edges s.
+Proof.
+  unfold add_cell. destruct (chk && negb (cell_check s l)); [reflexivity|]. pose proof (edges_append_cell s l) as E.
+  destruct (append_cell s l). exact E.
 Qed.
 
 (* base add_cell with check: rejected and unchanged, or the list appended as cell nc s *)
@@ -331,15 +339,17 @@ Proof.
   unfold hex_add_cell.
   destruct (Nat.eqb_spec (length hfs) 6) as [E|E]; cbn [negb]; [|intros H; inversion H; left; split; reflexivity].
   destruct (negb (forallb _ hfs)); [intros H; inversion H; left; split; reflexivity|].
+  cbn [negb]. destruct (negb (length (hfs_vertex_set s hfs) =? 8)); [intros H; inversion H; left; split; reflexivity|].
   assert (G : forall l, length l = 6 -> check_halfface_ordering s l = true -> add_cell s l true = (s', r) ->
               (r = None /\ s' = s) \/
               (exists l0, r = Some (nc s) /\ cells s' = cells s ++ [l0] /\ faces s' = faces s /\ cell_at s' (nc s) = l0 /\ length l0 = 6 /\
                           check_halfface_ordering s' l0 = true /\ l0 = l)).
-  { intros l L C H. destruct (add_cell_cases s l true) as [R|(s1&R&Cs&Fs)]; rewrite R in H; inversion H; subst.
+  { intros l L C H. pose proof (add_cell_edges s l true) as EE. rewrite H in EE. cbn [fst] in EE.
+    destruct (add_cell_cases s l true) as [R|(s1&R&Cs&Fs)]; rewrite R in H; inversion H; subst.
     - left. split; reflexivity.
     - right. exists l. repeat split; try assumption.
       + unfold cell_at, nc. rewrite Cs, app_nth2, Nat.sub_diag by lia. reflexivity.
-      + rewrite (check_ordering_faces s s' l Fs). exact C. }
+      + rewrite (check_ordering_faces s s' l Fs EE). exact C. }
   destruct (check_halfface_ordering s hfs) eqn:C.
   - intros H. destruct (G hfs E C H) as [L|(l0&a&b&c&d&e&f&g)]; [left; exact L|]. rewrite g in *. right. exists hfs. repeat split; try assumption. left. reflexivity.
   - destruct (reorder_bottom s hfs) as [b|] eqn:B; [|intros H; inversion H; left; split; reflexivity].
